@@ -136,6 +136,25 @@ def is_prefix(a, b):
     return len(a) <= len(b) and tuple(b[:len(a)]) == tuple(a)
 
 
+def loops_of(ctrl):
+    return tuple(c for c in ctrl if c[0] == "loop")
+
+
+def callers_of(T, f):
+    """(function of the table, call node) for every call of f from another function of the table (closures excluded)"""
+    cache = T.__dict__.setdefault("_callers", {})
+    if f.short not in cache:
+        out = []
+        for g in T.fns:
+            if g is f or not g.hir:
+                continue
+            for h, call in direct_callees(T, g):
+                if h is f:
+                    out.append((g, call))
+        cache[f.short] = out
+    return cache[f.short]
+
+
 # ---------------------------------------------------------------------------------------------------
 # R: slot/count pairing          (C12.R, C13.C)
 # ---------------------------------------------------------------------------------------------------
@@ -159,6 +178,38 @@ def rule_pairing(T, rid):
             key = "%s/%s/%s/vacate-decrements-count" % (P, rid, fname)
             if decs:
                 res.append(ok(rid_full(P, rid), key, f.loc(w["expr"]["ln"]), "a slot is emptied and `count` is decremented on the same path"))
+            elif not cs and callers_of(T, f):
+                # a helper that empties a slot and leaves `count` to its callers: the pairing is established per caller - every
+                # call of the helper is matched by exactly one decrement of count on the same path (same branch, same loop)
+                if any(r["key"].startswith("%s/%s/" % (P, rid)) and r["data"].get("via") == f.short for r in res):
+                    continue
+                for g, call in callers_of(T, f):
+                    gname = g.short.rsplit("::", 1)[-1] if not g.short.startswith("<") else g.short.split(">::")[-1]
+                    gkey = "%s/%s/%s/vacate-decrements-count" % (P, rid, gname)
+                    ganc = hu.control_ancestors(g.hir["body"])
+                    cctrl = ganc.get(id(call), ())
+                    gdecs = [c for c in T.count_updates(g) if c["kind"] == "dec"]
+                    same = [c for c in gdecs if loops_of(c["ctrl"]) == loops_of(cctrl) and
+                            (is_prefix(strip_loops(c["ctrl"]), strip_loops(cctrl)) or is_prefix(strip_loops(cctrl), strip_loops(c["ctrl"])))]
+                    must = [c for c in same if is_prefix(strip_loops(c["ctrl"]), strip_loops(cctrl))]
+                    n_prev = sum(1 for r in res if r["key"] == gkey or r["key"].startswith(gkey + "#"))
+                    if n_prev:
+                        gkey += "#%d" % n_prev
+                    if len(must) == 1 and len(same) == 1:
+                        res.append(ok(rid_full(P, rid), gkey, g.loc(call["ln"]), "a slot is emptied through %s and `count` is decremented once on "
+                                      "the same path" % fname, via=f.short))
+                    elif not same:
+                        res.append(bad(rid_full(P, rid), gkey, g.loc(call["ln"]),
+                                       "%s::%s empties a slot through %s (which leaves `count` to its caller) but does not decrement `count` on that "
+                                       "path: len(), the load-factor test and the serialised map length drift away from the number of stored "
+                                       "entries with every removal" % (T.name, gname, fname), via=f.short))
+                    elif len(same) > 1:
+                        res.append(bad(rid_full(P, rid), gkey, g.loc(call["ln"]),
+                                       "%s::%s decrements `count` %d times for one slot emptied through %s: the count runs below the number of "
+                                       "stored entries" % (T.name, gname, len(same), fname), via=f.short))
+                    else:
+                        res.append(undecided(rid_full(P, rid), gkey, g.loc(call["ln"]), "the decrement of `count` is on some of the paths through the "
+                                             "call of %s only" % fname, via=f.short))
             else:
                 res.append(bad(rid_full(P, rid), key, f.loc(w["expr"]["ln"]),
                                "%s::%s marks a slot EMPTY but never decrements `count`: len(), the load-factor test and the serialised map "
@@ -506,6 +557,37 @@ def evaluates_growth_on_every_path(T, g, depth=1):
     return bool(checks) and bool(rets) and g.cfg.every_path_passes(0, rets, checks)
 
 
+def count_reset_dominates(f, bi):
+    """is `count` set to 0 (`self.count = 0`, `mem::replace(&mut self.count, 0)`) in a block that dominates bi?"""
+    cfg = f.cfg
+    for b2, blk2 in enumerate(f.blocks):
+        if not (cfg.dominates(b2, bi) and b2 != bi):
+            continue
+        for st2 in blk2["stmts"]:
+            if st2["k"] == "assign" and mu.field_path(st2["place"])[-1:] == ["count"] and st2["rv"]["k"] == "use" \
+                    and st2["rv"]["op"].get("k") == "const" and st2["rv"]["op"].get("val") == 0:
+                return True
+        t2 = blk2["term"]
+        if t2["k"] == "call" and any(n_.endswith("mem::replace") for n_ in callee_names(t2["func"])) and len(t2["args"]) == 2 \
+                and t2["args"][1].get("k") == "const" and t2["args"][1].get("val") == 0:
+            a0 = op_local(t2["args"][0])
+            if a0 is not None and mu.ref_of_field_chain(f, DefUse(f), a0, ["count"]):
+                return True
+    return False
+
+
+def allocates_storage(T, g):
+    """does g obtain fresh slot arrays: a call of the table's storage allocator (the function of the table that calls the
+    Allocator trait's alloc), directly"""
+    for _bi, t in mu.calls(g):
+        for n in callee_names(t["func"]):
+            h = T.fn_by_short(n)
+            if h is not None and h.mir and any(any(x.endswith("Allocator::alloc") or x.endswith("::alloc") for x in callee_names(t2["func"]))
+                                               for _b2, t2 in mu.calls(h)):
+                return True
+    return False
+
+
 def rule_guard(T, rid):
     res = []
     P = T.prop
@@ -557,20 +639,7 @@ def rule_guard(T, rid):
             guarded_after = bool(checks) and not (cfg.reachable_from(bi, avoid=checks | mu.error_exit_blocks(f)) & rets) if checks else False
             # the resize itself: count is reset to zero and the moved entries are counted again - at most as many as before,
             # and the new capacity leaves a free slot (rule K of the same table decides that)
-            recount = False
-            for b2, blk2 in enumerate(f.blocks):
-                if not (cfg.dominates(b2, bi) and b2 != bi):
-                    continue
-                for st2 in blk2["stmts"]:
-                    if st2["k"] == "assign" and mu.field_path(st2["place"])[-1:] == ["count"] and st2["rv"]["k"] == "use" \
-                            and st2["rv"]["op"].get("k") == "const" and st2["rv"]["op"].get("val") == 0:
-                        recount = True
-                t2 = blk2["term"]
-                if t2["k"] == "call" and any(n_.endswith("mem::replace") for n_ in callee_names(t2["func"])) and len(t2["args"]) == 2 \
-                        and t2["args"][1].get("k") == "const" and t2["args"][1].get("val") == 0:
-                    a0 = op_local(t2["args"][0])
-                    if a0 is not None and mu.ref_of_field_chain(f, DefUse(f), a0, ["count"]):
-                        recount = True
+            recount = count_reset_dominates(f, bi)
             in_loop = any(cfg.dominates(h, bi) for _s, h in cfg.back_edges())
             if recount and in_loop:
                 res.append(ok(rid_full(P, rid), key, f.loc(st.get("ln")), "re-count of the entries moved by a resize (count was reset to 0 before the loop; "
@@ -587,9 +656,15 @@ def rule_guard(T, rid):
                         if f.short in callee_names(ct["func"]):
                             callers.append((g, cb, ct))
                 unguarded = []
+                rehash = []
                 for g, cb, ct in callers:
                     gchecks = growth_check_blocks(T, g)
-                    if g.name == "adjust_capacity":
+                    # the rehash, recognised by what it does: it installs fresh storage (a call of the table's storage
+                    # allocator), resets count to 0 and then counts the moved entries again, one call / iteration each.
+                    # That the installed capacity leaves a free slot for them is rule K's clause (decided for every caller).
+                    if count_reset_dominates(g, cb) and allocates_storage(T, g) and \
+                            (in_loop or any(g.cfg.dominates(h, cb) for _s, h in g.cfg.back_edges())):
+                        rehash.append(g.name)
                         continue
                     if not any(g.cfg.dominates(c, cb) for c in gchecks):
                         unguarded.append(g)
@@ -688,10 +763,104 @@ def final_hole_verdict(T, f, g, call, vac):
                 break
             seen.add(lid)
             ix = inits[lid][0]
-        verdicts.append(True if ix is call else (None if ix is None or hir_local_id(ix) is None or len(inits.get(hir_local_id(ix), [])) > 1 else False))
+        if ix is call:
+            verdicts.append(True)
+        elif ix is None:
+            verdicts.append(None)
+        else:
+            # the chain ended in something else: a value that cannot come from the call (parameter, another expression) is a
+            # different slot; a local assigned several times, or an expression that contains the call, is left open
+            lid = hir_local_id(ix)
+            srcs = inits.get(lid, []) if lid is not None else [ix]
+            verdicts.append(None if any(y is call for s_ in srcs for y in hir_walk(s_)) else False)
     if any(v is True for v in verdicts):
         return "ok", "back-shift loop (in %s) followed by emptying the final hole it returns" % g.name, ln
     if all(v is False for v in verdicts):
         return "bad", ("%s returns the final position of the hole, but %s empties another slot: the slot the last entry was moved "
                        "from stays occupied (the entry is visible twice) and a live entry is wiped" % (g.name, f.name)), ln
     return "undecided", "the slot emptied after %s is not established to be the hole it returns" % g.name, ln
+
+
+def backshift_instances(T, g, F, rid, keybase, power_of_two):
+    """the three clauses of the back-shift loop of g (cao/backshift.py) as rule instances under keybase"""
+    from cao import backshift as bs
+    out = []
+    r = bs.analyse(g, power_of_two, F, T.slot_tys)
+    if r is None:
+        return out
+    seen = {}
+    for suffix, status, msg, ln in r:
+        n = seen.get(suffix, 0)
+        seen[suffix] = n + 1
+        key = "%s/%s%s" % (keybase, suffix, "" if n == 0 else "#%d" % n)
+        mk = {"ok": ok, "bad": bad, "undecided": undecided}[status]
+        out.append(mk(rid, key, g.loc(ln), msg))
+    return out
+
+
+def _end_line(e):
+    m = e.get("ln", 0)
+    for x in hir_walk(e):
+        if x.get("ln") and x["ln"] > m:
+            m = x["ln"]
+    return m
+
+
+def rule_backshift(T, F, rid, struct_key, power_of_two, only=None, skip=("clear",)):
+    """Every function of the table that empties a single slot (not a whole-table reset) repairs the probe chain: it - or a
+    function of the table it calls - contains a back-shift loop (decided clause by clause by cao/backshift.py), and the slot
+    that is emptied afterwards is the final hole. A helper that does all of this but leaves `count` to its callers
+    (`close_hole`) is decided once; each caller gets an instance for its use of it, and a caller that removes in a loop
+    (`retain`) must look at the slot again after a removal, because the next entry of the chain was shifted into it."""
+    from cao import backshift as bs
+    P = T.prop
+    R = rid_full(P, rid)
+    res = []
+    for f in T.fns:
+        if not f.hir or f.name in skip or (only is not None and f.name not in only):
+            continue
+        vac = [w for w in T.slot_writes(f) if w["kind"] == "vacate" and not w["in_loop"]]
+        if not vac:
+            continue
+        key = "%s/%s/%s/%s" % (P, rid, f.name, struct_key)
+        g, call = shifting_function(T, f)
+        if g is None:
+            res.append(bad(R, key, f.loc(vac[0]["expr"]["ln"]),
+                           "%s::%s empties a slot without moving the following entries of the probe chain back (no back-shift loop, no "
+                           "tombstone): keys that probed past the removed slot are cut off from their probe chain and are no longer found "
+                           "(and can be inserted a second time)" % (T.name, f.name)))
+            continue
+        never = ("the back-shift loop copies the marker of a following entry into the hole but the slot it was moved from is never marked "
+                 "EMPTY: the entry stays visible twice (its stale copy holds a key that was dropped and a value that was moved out)")
+        if g is f:
+            loops = [x for x in hir_walk(f.hir["body"]) if x.get("k") == "loop"]
+            after = [w for w in vac if w["expr"]["ln"] > max(_end_line(l) for l in loops)]
+            if after:
+                res.append(ok(R, key, f.loc(after[0]["expr"]["ln"]), "back-shift loop followed by emptying the final hole"))
+            else:
+                res.append(bad(R, key, f.loc(vac[0]["expr"]["ln"]), never))
+        else:
+            after = [w for w in vac if w["expr"]["ln"] >= _end_line(call)]
+            if not after:
+                res.append(bad(R, key, f.loc(vac[0]["expr"]["ln"]), never))
+            else:
+                status, msg, ln = final_hole_verdict(T, f, g, call, after)
+                res.append({"ok": ok, "bad": bad, "undecided": undecided}[status](R, key, f.loc(ln), msg))
+        res.extend(backshift_instances(T, g, F, R, "%s/%s/%s" % (P, rid, f.name), power_of_two))
+        if T.count_updates(f):
+            continue
+        # f repairs the chain and empties the hole but leaves `count` to its callers: each caller's use of it
+        for h, c in callers_of(T, f):
+            hkey = "%s/%s/%s/%s" % (P, rid, h.name, struct_key)
+            if any(r["key"] == hkey for r in res):
+                continue
+            res.append(ok(R, hkey, h.loc(c["ln"]), "the slot is emptied through %s, which back-shifts the probe chain and empties the final "
+                          "hole (decided under %s)" % (f.name, f.name)))
+            args = c["args"] if c["k"] == "mcall" else c["args"][1:]
+            lid = hir_local_id(hu.strip_casts(args[0])) if args else None
+            if lid is not None:
+                v = bs.reexamined_after(h, c, lid)
+                if v is not None:
+                    res.append({"ok": ok, "bad": bad, "undecided": undecided}[v[0]](
+                        R, "%s/%s/%s/shifted-entry-is-examined" % (P, rid, h.name), h.loc(c["ln"]), "%s::%s: %s" % (T.name, h.name, v[1])))
+    return res
